@@ -199,6 +199,24 @@ fn legal(tier: usize, seed: u64, out: &mut Out) {
             out.emit(&format!("status {r}"), &obs_status(b));
             out.emit(&format!("masks {r}"), &obs_masks(b));
         });
+        // successors of the SPECIAL legal moves (castling, en passant, promotions, corner captures): representation
+        // invariant (C06), status and masks (C04/C05) of the board object make_move returns
+        let legal = catch(|| b.get_legal_moves()).unwrap_or_default();
+        let mut n = 0;
+        for m in legal.iter() {
+            let c = crate::gen::classify(b, m);
+            if !(c.castle || c.ep || c.promo || c.corner_capture) || n >= 6 {
+                continue;
+            }
+            if let Some(nb) = catch(|| b.make_move(m).ok()).flatten() {
+                n += 1;
+                with_raw(out, &nb, |out, r| {
+                    out.emit(&format!("q {r}"), &obs_q(&nb));
+                    out.emit(&format!("status {r}"), &obs_status(&nb));
+                    out.emit(&format!("masks {r}"), &obs_masks(&nb));
+                });
+            }
+        }
     });
 }
 
@@ -390,6 +408,7 @@ pub fn exec_line(line: &str, sess: &mut Session, uni: &mut Option<Vec<BoardMove>
             "g.hist" => sess.op_hist(),
             "g.pgn" => sess.op_pgn(),
             "g.frompgn" => obs_frompgn(&text(1)?).0,
+            "rx" => obs_rx(&pgn_patterns(), &text(1)?),
             "tbl" => obs_tbl(tok.get(1).ok_or_else(bad)?),
             "prim" => obs_prim(tok.get(1).ok_or_else(bad)?),
             "bb" => obs_bb(u64::from_str_radix(tok.get(1).ok_or_else(bad)?, 16).map_err(|_| bad())?),
